@@ -1,4 +1,4 @@
 Require Extraction.
 Require Import ExtrOcamlBasic.
 From Phil Require Import Base EntryExtract.
-Extraction "Extract.ml" run_extract run_format run_extract_format run_canon_str run_clone run_paths run_guard run_class_attrs.
+Extraction "Extract.ml" run_extract run_format run_extract_format run_canon_str run_clone run_paths run_guard run_class_attrs run_extractwf.
